@@ -28,6 +28,7 @@ pub fn gen_cov_case(rng: &mut Rng, tier: &str, prop: &str) -> Case {
         alpha_w: [35, 12, 14, 8, 10, 18, 3],
         min_len: 0,
         dup_pct: 20,
+            tab_desc_pct: 0,
     };
     let records = g.gen(rng);
     let container = gen_container(rng, &records, false, true);
